@@ -193,16 +193,14 @@ REPLAY_TEMPLATES = {
     "k_to_alpha": ("src/helper/coordinate.rs", "let n: u32 = {0}; let got = string_from_column_index(&n); let want = {{ let mut v = Vec::new(); let mut x = n; while x > 0 {{ let r = (x - 1) % 26; v.push((65 + r) as u8); x = (x - 1) / 26; }} v.reverse(); String::from_utf8(v).unwrap() }};"),
     "k_date_full": ("src/helper/date.rs", "let (y, m, d): (i32, i32, i32) = ({0}, {1}, {2}); let got = convert_date_windows_1900(y, m, d, 0, 0, 0); let want = {{ let yy = if m <= 2 {{ y - 1 }} else {{ y }}; let era = yy / 400; let yoe = yy - era * 400; let mp = (m + 9) % 12; let doy = (153 * mp + 2) / 5 + d - 1; let doe = yoe * 365 + yoe / 4 - yoe / 100 + doy; let serial = era * 146097 + doe - 719468 + 25569; (if y == 1900 && m <= 2 {{ serial - 1 }} else {{ serial }}) as f64 }};"),
     "k_serial_to_date_0": ("src/helper/date.rs", "let n: u32 = {0}; let got = excel_to_date_time_object(&(n as f64), None).to_string(); let want = {{ let z = n as i64 - 25569 + 719468 + (if n < 60 {{ 1 }} else {{ 0 }}); let era = z / 146097; let doe = z - era * 146097; let yoe = (doe - doe / 1460 + doe / 36524 - doe / 146096) / 365; let y0 = yoe + era * 400; let doy = doe - (365 * yoe + yoe / 4 - yoe / 100); let mp = (5 * doy + 2) / 153; let d = doy - (153 * mp + 2) / 5 + 1; let m = if mp < 10 {{ mp + 3 }} else {{ mp - 9 }}; let y = if m <= 2 {{ y0 + 1 }} else {{ y0 }}; format!(\"{{:04}}-{{:02}}-{{:02}} 00:00:00\", y, m, d) }};"),
-    "k_serial_to_date_a": ("src/helper/date.rs", "let n: u32 = {0}; let got = excel_to_date_time_object(&(n as f64), None).to_string(); let want = {{ let z = n as i64 - 25569 + 719468 + (if n < 60 {{ 1 }} else {{ 0 }}); let era = z / 146097; let doe = z - era * 146097; let yoe = (doe - doe / 1460 + doe / 36524 - doe / 146096) / 365; let y0 = yoe + era * 400; let doy = doe - (365 * yoe + yoe / 4 - yoe / 100); let mp = (5 * doy + 2) / 153; let d = doy - (153 * mp + 2) / 5 + 1; let m = if mp < 10 {{ mp + 3 }} else {{ mp - 9 }}; let y = if m <= 2 {{ y0 + 1 }} else {{ y0 }}; format!(\"{{:04}}-{{:02}}-{{:02}} 00:00:00\", y, m, d) }};"),
-    "k_serial_to_date_b": ("src/helper/date.rs", "let n: u32 = {0}; let got = excel_to_date_time_object(&(n as f64), None).to_string(); let want = {{ let z = n as i64 - 25569 + 719468 + (if n < 60 {{ 1 }} else {{ 0 }}); let era = z / 146097; let doe = z - era * 146097; let yoe = (doe - doe / 1460 + doe / 36524 - doe / 146096) / 365; let y0 = yoe + era * 400; let doy = doe - (365 * yoe + yoe / 4 - yoe / 100); let mp = (5 * doy + 2) / 153; let d = doy - (153 * mp + 2) / 5 + 1; let m = if mp < 10 {{ mp + 3 }} else {{ mp - 9 }}; let y = if m <= 2 {{ y0 + 1 }} else {{ y0 }}; format!(\"{{:04}}-{{:02}}-{{:02}} 00:00:00\", y, m, d) }};"),
-    "k_serial_to_date_c": ("src/helper/date.rs", "let n: u32 = {0}; let got = excel_to_date_time_object(&(n as f64), None).to_string(); let want = {{ let z = n as i64 - 25569 + 719468 + (if n < 60 {{ 1 }} else {{ 0 }}); let era = z / 146097; let doe = z - era * 146097; let yoe = (doe - doe / 1460 + doe / 36524 - doe / 146096) / 365; let y0 = yoe + era * 400; let doy = doe - (365 * yoe + yoe / 4 - yoe / 100); let mp = (5 * doy + 2) / 153; let d = doy - (153 * mp + 2) / 5 + 1; let m = if mp < 10 {{ mp + 3 }} else {{ mp - 9 }}; let y = if m <= 2 {{ y0 + 1 }} else {{ y0 }}; format!(\"{{:04}}-{{:02}}-{{:02}} 00:00:00\", y, m, d) }};"),
-    "k_serial_to_date_d": ("src/helper/date.rs", "let n: u32 = {0}; let got = excel_to_date_time_object(&(n as f64), None).to_string(); let want = {{ let z = n as i64 - 25569 + 719468 + (if n < 60 {{ 1 }} else {{ 0 }}); let era = z / 146097; let doe = z - era * 146097; let yoe = (doe - doe / 1460 + doe / 36524 - doe / 146096) / 365; let y0 = yoe + era * 400; let doy = doe - (365 * yoe + yoe / 4 - yoe / 100); let mp = (5 * doy + 2) / 153; let d = doy - (153 * mp + 2) / 5 + 1; let m = if mp < 10 {{ mp + 3 }} else {{ mp - 9 }}; let y = if m <= 2 {{ y0 + 1 }} else {{ y0 }}; format!(\"{{:04}}-{{:02}}-{{:02}} 00:00:00\", y, m, d) }};"),
-    "k_serial_to_date_e": ("src/helper/date.rs", "let n: u32 = {0}; let got = excel_to_date_time_object(&(n as f64), None).to_string(); let want = {{ let z = n as i64 - 25569 + 719468 + (if n < 60 {{ 1 }} else {{ 0 }}); let era = z / 146097; let doe = z - era * 146097; let yoe = (doe - doe / 1460 + doe / 36524 - doe / 146096) / 365; let y0 = yoe + era * 400; let doy = doe - (365 * yoe + yoe / 4 - yoe / 100); let mp = (5 * doy + 2) / 153; let d = doy - (153 * mp + 2) / 5 + 1; let m = if mp < 10 {{ mp + 3 }} else {{ mp - 9 }}; let y = if m <= 2 {{ y0 + 1 }} else {{ y0 }}; format!(\"{{:04}}-{{:02}}-{{:02}} 00:00:00\", y, m, d) }};"),
-    "k_serial_to_date_f": ("src/helper/date.rs", "let n: u32 = {0}; let got = excel_to_date_time_object(&(n as f64), None).to_string(); let want = {{ let z = n as i64 - 25569 + 719468 + (if n < 60 {{ 1 }} else {{ 0 }}); let era = z / 146097; let doe = z - era * 146097; let yoe = (doe - doe / 1460 + doe / 36524 - doe / 146096) / 365; let y0 = yoe + era * 400; let doy = doe - (365 * yoe + yoe / 4 - yoe / 100); let mp = (5 * doy + 2) / 153; let d = doy - (153 * mp + 2) / 5 + 1; let m = if mp < 10 {{ mp + 3 }} else {{ mp - 9 }}; let y = if m <= 2 {{ y0 + 1 }} else {{ y0 }}; format!(\"{{:04}}-{{:02}}-{{:02}} 00:00:00\", y, m, d) }};"),
     "k_shift_ins": ("src/helper/coordinate.rs", "let (n, p, k): (u32, u32, u32) = ({0}, {1}, {2}); let got = adjustment_insert_coordinate(&n, &p, &k); let want = if k != 0 && n >= p {{ n + k }} else {{ n }};"),
     "k_shift_rem": ("src/helper/coordinate.rs", "let (n, p, k): (u32, u32, u32) = ({0}, {1}, {2}); let got = adjustment_remove_coordinate(&n, &p, &k); let want = if k != 0 && n >= p {{ n - k }} else {{ n }};"),
     "k_shift_band": ("src/helper/coordinate.rs", "let (n, p, k): (u32, u32, u32) = ({0}, {1}, {2}); let got = is_remove_coordinate(&n, &p, &k); let want = p != 0 && k != 0 && p <= n && n < p + k;"),
 }
+
+
+for _i in range(1, 40):
+    REPLAY_TEMPLATES["k_serial_to_date_%02d" % _i] = REPLAY_TEMPLATES["k_serial_to_date_0"]
 
 
 def write_replay(prop, kr):
